@@ -37,7 +37,7 @@ def render_graph(g):
         k = nd["kind"]
         if not nd["exists"]:
             objs.append("OOpaque")
-        elif k == "list":
+        elif k in ("list", "hbox"):      # a host-defined mutable sequence behaves like a list: flag first, elements, append
             objs.append("OList %s 0 %s" % (fr, cvals(es)))
         elif k == "set":
             objs.append("OSet %s 0 %s" % (fr, cvals(es)))
@@ -191,7 +191,7 @@ def run(ctx):
         for p in g["probes"] or []:
             k = kinds[p["node"]]
             count("probe:%s:%s:%s" % (k, "reachable" if p["node"] in reach else "unreachable", p["via"].rstrip("0123456789.")[:5]))
-            if p["node"] in reach and k in ("list", "dict", "set"):
+            if p["node"] in reach and k in ("list", "dict", "set", "hbox"):
                 nontrivial += 1
             if p.get("viol"):
                 ctx.finding(finding_key(p["viol"], k, p["op"]["n"]),
